@@ -511,13 +511,13 @@ class Fn(object):
             if blk.noreturn:
                 continue
             for s, _ in blk.succ:
+                if skip_edge is not None and skip_edge(blk, s, _):
+                    continue
                 if s == self.exit:
                     # falling off the end of a void function (every element of this block was passed without being blocked or returning)
                     if exit_pred is None:
                         return True
                 if origin is not None and self.contra(origin, s):
-                    continue
-                if skip_edge is not None and skip_edge(blk, s, _):
                     continue
                 if s not in seen:
                     seen.add(s)
